@@ -11,6 +11,7 @@
  *   FCV_KILL   K:before | K:after    _exit(137) just before / after the K-th relevant mutating call
  *   FCV_PAUSE  CLASS:K:FIFO_OUT:FIFO_IN   at the K-th relevant call of CLASS (R|M|O = open for read)
  *              write one byte to FIFO_OUT and block until a byte arrives on FIFO_IN
+ *   FCV_READ_DELAY_US=N   every read() of a relevant file sleeps N microseconds first (the file stays open meanwhile)
  *   FCV_DTYPE_UNKNOWN=1   readdir reports every entry of a relevant directory with d_type = DT_UNKNOWN, as file
  *              systems without the filetype feature do (the caller then has to lstat each entry)
  *   FCV_NOLOCK_DIR=DIR   fcntl record locks (F_SETLK, F_SETLKW, F_OFD_SETLK) on files below DIR fail with
@@ -66,6 +67,7 @@ static atomic_long openr_count = 0;
 static unsigned long jitter_seed = 0;
 static int noatime_eperm = 0;
 static int dtype_unknown = 0;
+static long read_delay_us = 0;
 static char nolock_dir[4096];
 static long kill_k = -1;
 static int kill_after = 0;
@@ -130,6 +132,8 @@ static void init(void) {
     if (l && *l) log_fd = syscall(SYS_openat, AT_FDCWD, l, O_WRONLY | O_CREAT | O_APPEND | O_CLOEXEC, 0644);
     const char *e = getenv("FCV_FICLONE_EMULATE");
     ficlone_emulate = e && *e == '1';
+    const char *rd = getenv("FCV_READ_DELAY_US");
+    if (rd && *rd) read_delay_us = atol(rd);
     const char *du = getenv("FCV_DTYPE_UNKNOWN");
     dtype_unknown = du && *du == '1';
     const char *nl = getenv("FCV_NOLOCK_DIR");
@@ -543,6 +547,10 @@ static int fd_still_points_to(int fd, const char *path0) {
 ssize_t read(int fd, void *buf, size_t n) {
     REAL(read);
     FD_CALL('R', "read", fd, real_read(fd, buf, n));
+    if (read_delay_us > 0) {
+        struct timespec ts = {read_delay_us / 1000000, (read_delay_us % 1000000) * 1000};
+        nanosleep(&ts, NULL);
+    }
     ssize_t r = real_read(fd, buf, n);
     int e = errno;
     after(ka_, s_, 'R', "read", fp_, NULL, r, e);
